@@ -493,6 +493,9 @@ class EigenDomain(Domain):
             for x, y in ((a, b), (b, a)):
                 if x in ("MAX", "MIN") and self._isbool(y):
                     return ("sel", x, y)
+            for x, y in ((a, b), (b, a)):
+                if x == "SGN1" and isinstance(y, tuple) and y and y[0] in ("maxabsdiff", "minabsdiff"):
+                    return ("signed", x, y)      # sign indicator times an unsigned reduction over eigenvalue differences
         if isinstance(op, ast.Add) and all(isinstance(x, tuple) and x and x[0] == "sel" for x in (a, b)):
             m = {x[1]: x[2] for x in (a, b)}
             if set(m) == {"MAX", "MIN"} and self._neg(m["MAX"]) == m["MIN"]:
@@ -967,6 +970,20 @@ def _r5(ctx):
                 up = prog.func(EQ + ":" + u).params
                 ok = [norm_text(a) for a in calls[h].args] == hp and [norm_text(a) for a in calls[u].args] == up and \
                     not calls[h].keywords and not calls[u].keywords
+        if not ok and h == "_sign_abs_max_principal" and u == "tresca":
+            # the same product written on shared eigenvalues (computed once, handed to private helpers): decided on the values of
+            # the eigen domain - the function's value is sign indicator x the reduction tresca() itself evaluates to
+            dom = EigenDomain()
+            try:
+                vf = Interp(prog, dom).run(f, [("p", q) for q in f.params])
+                fh, fu = prog.func(EQ + ":" + h), prog.func(EQ + ":" + u)
+                vh = Interp(prog, dom).run(fh, [("p", q) for q in fh.params])
+                vu = Interp(prog, dom).run(fu, [("p", q) for q in fu.params])
+            except Exception:
+                vf = vh = vu = None
+            if vf is not None and vh is not None and vu is not None and vf == ("signed", vh, vu):
+                ctx.holds(f, r, "%s = value of %s x value of %s on the eigenvalues of the same tensor (eigen domain)" % (name, h, u))
+                continue
         if ok:
             ctx.holds(f, r, "%s = %s(...) * %s(...) on the same components" % (name, h, u))
         else:
